@@ -51,7 +51,7 @@ def main():
         "hooks": {
             "guard": "SZ_VERIF",
             "enable": "checks compile sz/src/*.c from /repo's working tree themselves with -DSZ_VERIF (tools/lib.py build_impl); the guard is never defined by the repository's own build",
-            "baseline_off_cmd": "cmake --build /repo/_build && ctest --test-dir /repo/_build -j8 --timeout 900",
+            "baseline_off_cmd": "cmake --build /repo/_build --target SZ cunit_extras test_ByteToolkit test_DynamicByteArray test_DynamicFloatArray test_DynamicIntArray.c test_TypeManager test_dataCompression && ctest --test-dir /repo/_build -j8 --timeout 900",
             "source_commits": hooks_commits,
             "add_only": True,
         },
